@@ -45,6 +45,8 @@ def configs(tier, prop="C06"):
         for uni in ("none", "sym"):
             for filt in ("none", "via", "result"):
                 cfg(cs, 3, uni, filt, falsy=(cs == ["DE", "UE"]))
+    # A': a half-assigned edge (v2 is None) next to a universe: None is never a member, so every traversal skips it
+    cfg(["DE", "UE"], 3, "sym", "none", none_end=True, dir=1, unk=2)
     # B: three links; interchangeable links ordered (symmetry breaking), start fixed by symmetry
     cfg(["DE", "DE", "DE"], 3, "none", "none", symbreak=True, dir=0, unk=2)
     cfg(["DE", "DE", "UE"], 3, "none", "none", symbreak=True, dir=0, unk=2)
@@ -138,8 +140,10 @@ def scenario(B, p):
     links = make_links(B, p["classes"])
     n = len(links)
     symbolic_assoc_state(B, verts, links, n, n, two_ended_wellformed=True)
-    for l in links:
-        for e in B.items(B.get_field(l, "_vertices")):
+    for li, l in enumerate(links):
+        for ei, e in enumerate(B.items(B.get_field(l, "_vertices"))):
+            if p.get("none_end") and li == 0 and ei == 1:
+                continue        # the first link's v2 may be None (a half-assigned edge); only with a universe
             B.assume(B.not_(B.is_(e, None)), "ends are vertices")
     B.assume(inv01(B, verts, links), "Inv01(pre)")
     if p.get("symbreak"):
